@@ -18,6 +18,8 @@ pub trait OutT {
     fn d_res_or(&self) -> Result<Option<&Tok>, Result<&Tok, Tok>>;
     fn d_poll_res(&self) -> Poll<Result<&Tok, Tok>>;
     fn d_opt_vec_res(&self) -> Option<Vec<Result<&Tok, Tok>>>;
+    fn b_opt_res(&self) -> Option<Result<&Tok, Tok>> { None }
+    fn b_tup(&self) -> (&Tok, Tok) { (&STATIC_TOK, Tok(0)) }
     fn l_ref<'s>(&'s self) -> &'s Tok;
     fn l_opt<'s>(&'s self) -> Option<&'s Tok>;
     fn l_res<'s>(&'s self) -> Result<&'s Tok, Tok>;
